@@ -33,22 +33,26 @@ META = {
 # audited Assert / Index sites not covered by a generic recogniser.
 # key = (function short name, kind, operand shapes…) ; value = reason. Shapes have variable names canonicalised.
 AUDITED = {
-    ("schwab::process_transactions", "Overflow(Add)"):
-        "skipped_count is incremented at most once per input row held in memory (≤ isize::MAX rows)",
     ("matcher::bed_and_breakfast::match_bed_and_breakfast", "Overflow(Add)", "p1", "1"):
         "sell_idx is an index into the live transaction slice (PROV: i + offset in the day loop)",
     ("ROLE:bnb", "Overflow(Add)", "p1", "1"):
         "sell_idx is an index into the live transaction slice (PROV: i + offset in the day loop)",
-    ("ROLE:converter-rows", "Overflow(Add)"):
-        "skipped_count is incremented at most once per input row held in memory (≤ isize::MAX rows)",
-    ("format_tax_year::{closure#1}", "Overflow(Add)"):
-        "every in-workspace caller passes TaxPeriod::start_year() (≤ 2100); checked by R2-callers",
-    ("format_tax_year::{closure#1}", "RemainderByZero"): "constant divisor 100",
 }
 
 
 def _short(b):
     return b.short
+
+
+def audit_reason(F, b, *tail):
+    """reason of the audited-site table for this function (or the structural role it belongs to) and exactly this kind + operand
+    shape, or None — shared with C20 so that both read the table the same way"""
+    al = _role_alias(F, b)
+    for table in (AUDITED, RANGE_AUDIT):
+        r = table.get((_short(b),) + tail) or (al and table.get((al,) + tail))
+        if r:
+            return r
+    return None
 
 
 _ALIAS = {}
@@ -116,9 +120,7 @@ def run(ctx, rep):
         shapes = tuple(P.shape(o) for o in ops)
         reason = why
         if reason is None:
-            al = _role_alias(F, b)
-            reason = AUDITED.get((_short(b), msg) + shapes) or AUDITED.get((_short(b), msg)) or \
-                (al and (AUDITED.get((al, msg) + shapes) or AUDITED.get((al, msg))))
+            reason = audit_reason(F, b, msg, *shapes)
             if reason:
                 reason = "audited: " + reason
         if reason is None and b.id not in reach:
@@ -132,8 +134,8 @@ def run(ctx, rep):
         reason = why
         kind = "index" if ity == "usize" else ("str-range" if cont.endswith("str") else "range:" + ity.split("::")[-1][:24])
         if reason is None:
-            al = _role_alias(F, b)
-            r = AUDITED.get((_short(b), kind)) or RANGE_AUDIT.get((_short(b), kind)) or (al and (AUDITED.get((al, kind)) or RANGE_AUDIT.get((al, kind))))
+            # audits are keyed by the shape of the index expression as well: another index in the same function is not covered
+            r = audit_reason(F, b, kind, P.shape(idx))
             if r:
                 reason = "audited: " + r
         if reason is None and "HashMap" in cont:
@@ -227,17 +229,13 @@ DIV_AUDIT = {
 }
 
 RANGE_AUDIT = {
-    ("matcher::Matcher::process", "range:Range<usize>"):
-        "transactions[i..day_end]: i ≤ day_end ≤ len is the loop invariant (day_end starts at i and only grows under `day_end < len`)",
-    ("matcher::Matcher::compute_cost_offsets", "range:Range<usize>"):
-        "same loop shape as Matcher::process",
-    ("matcher::Matcher::compute_cost_offsets", "index"):
+    # (the day-scan slices transactions[i..day_end] used to be audited per function; they are now decided by the scan-slice
+    # recogniser in lib/panics.py, so an off-by-one end or an unrelated start is reported)
+    ("matcher::Matcher::compute_cost_offsets", "index", "some(next(var:v0)).transaction_idx"):
         "offsets[lot.transaction_idx]: offsets has transactions.len() entries and every lot index is an enumerate index of that slice",
     # the same audits by role (the function found structurally as the cost pre-pass / day loop, with its helpers)
-    ("ROLE:prepass", "index"):
+    ("ROLE:prepass", "index", "some(next(var:v0)).transaction_idx"):
         "offsets[lot.transaction_idx]: offsets has transactions.len() entries and every lot index is an enumerate index of that slice",
-    ("ROLE:prepass", "range:Range<usize>"): "day slices i..day_end with i ≤ day_end ≤ len (loop invariant of the day scan)",
-    ("ROLE:dayloop", "range:Range<usize>"): "day slices i..day_end with i ≤ day_end ≤ len (loop invariant of the day scan)",
 }
 
 
